@@ -186,15 +186,15 @@ GEN = {"kernel": ("theories/Gen/GenEquiv.vo", "kernel of /repo (gene_datum.py, o
        "cf_worker_run": ("theories/Props/C20code.vo", "control flow of /repo's WorkerProcess.run (+ _send_result) as an interaction program: equal to Model/Worker.v on every script (Proofs/WorkerProgP.v)"),
        "cf_handle_chrome": ("theories/Props/C11code.vo", "control flow of /repo's _ProgressBars.handle_chrome (+ _pop, _collect) as an interaction program: in lockstep with Model/Collector.v under every schedule (Proofs/CollectorProgP.v)")}
 # further property files (theorems about the translated code) whose theorems and Print Assumptions are checked with the property's own
-EXTRA_PROPS = {"C01": ["C01code.v", "C01merge.v", "C01e2e.v", "CodeCell.v"], "C04": ["C01code.v", "CodeCell.v"], "C07": ["C01code.v", "C01merge.v", "C07code.v"], "C08": ["C01code.v", "C01merge.v", "C08code.v"], "C20": ["C20code.v"], "C11": ["C11code.v", "C05code.v"], "C02": ["C02code.v"], "C03": ["C03float.v", "C03code.v"], "C13": ["C13code.v"], "C18": ["C18code.v"], "C15": ["C15code.v"], "C09": ["C15code.v"], "C12": ["C12code.v"], "C17": ["C12code.v"], "C19": ["C19code.v"],
-               "C05": ["C18code.v", "C05code.v", "CodeCell.v"], "C06": ["C06code.v"], "C16": ["C16code.v"]}
+EXTRA_PROPS = {"C01": ["C01code.v", "C01merge.v", "C01e2e.v", "CodeCell.v"], "C04": ["C01code.v", "CodeCell.v"], "C07": ["C01code.v", "C01merge.v", "C07code.v"], "C08": ["C01code.v", "C01merge.v", "C08code.v"], "C20": ["C20code.v"], "C11": ["C11code.v", "C05code.v"], "C02": ["C02code.v"], "C03": ["C03float.v", "C03code.v"], "C13": ["C13code.v"], "C18": ["C18code.v"], "C15": ["C15code.v"], "C09": ["C15code.v", "C09code.v"], "C12": ["C12code.v"], "C17": ["C12code.v"], "C19": ["C19code.v"],
+               "C05": ["C18code.v", "C05code.v", "CodeCell.v"], "C06": ["C06code.v"], "C16": ["C16code.v"], "C14": ["C14code.v"], "C10": ["C14code.v"]}
 # axioms of Coq's standard library that the theorems of a property file may depend on (everything else: none)
 STDLIB_REALS = {"ClassicalDedekindReals.sig_forall_dec", "ClassicalDedekindReals.sig_not_dec",
                 "FunctionalExtensionality.functional_extensionality_dep", "Classical_Prop.classic"}
 ALLOWED_AXIOMS = {"C03float.v": STDLIB_REALS}
 # which translated parts each property's theorems rest on
 NEEDS = {"C01": ["kernel", "revise", "overlap", "merge", "lookup"], "C02": ["kernel", "revise"], "C03": ["kernel", "overlap", "merge"], "C04": ["kernel", "revise", "overlap", "merge", "lookup"], "C08": ["kernel", "overlap", "merge", "lookup"], "C05": ["kernel", "guards", "jobs", "overlap", "merge", "lookup"], "C06": ["kernel", "overlap", "merge", "lookup"], "C07": ["kernel", "overlap", "merge", "lookup"],
-         "C10": ["kernel"], "C14": ["kernel", "cache"], "C12": ["cache", "guards", "writers"], "C13": ["cache", "guards"], "C17": ["cache", "guards", "writers"],
+         "C10": ["kernel", "overlap", "merge", "lookup"], "C14": ["kernel", "cache", "overlap", "merge", "lookup"], "C12": ["cache", "guards", "writers"], "C13": ["cache", "guards"], "C17": ["cache", "guards", "writers"],
          "C18": ["guards"], "C19": ["store"], "C09": ["reader"], "C15": ["reader"], "C16": ["reader", "pair"],
          "C20": ["cf_worker_run"], "C11": ["cf_handle_chrome", "cache", "jobs"]}
 
